@@ -241,9 +241,11 @@ fn system_and_fit(ctx: &mut Ctx, conv: &Converter) {
                 ctx.violation(&case, "system", "result_unit_unknown", format!("{orig} -> {q}"));
                 continue;
             };
+            // fitting stays in the unit's own system; a unit without a system uses the converter's default system
+            // (units_file rustdoc: "the unit doesn't belong to one, so the default is used")
             let target_sys = match sys {
                 Some(s) => Some(s),
-                None => nu.system.or(u.system),
+                None => u.system.or(Some(conv.default_system())),
             };
             let allowed = conv.best_units(pq, target_sys);
             if !allowed.iter().any(|a| a.symbol() == nu.symbol()) {
@@ -385,7 +387,93 @@ fn recipes(ctx: &mut Ctx, conv: &Converter) {
     }
 }
 
+/// A converter made of layers: the bundled file plus a user layer that re-bases the mass units on the kilogram (edits
+/// the ratio of an SI-expanded unit), makes imperial the default system and adds a volume unit without a system.
+/// The standard definitions still hold between units (1 kg = 1000 g whatever the base is).
+pub fn layered_converter() -> Option<Converter> {
+    let layer: cooklang::convert::UnitsFile = toml::from_str(
+        "default_system = \"imperial\"\n[extend.units]\ng = { ratio = 0.001 }\noz = { ratio = 0.028349523125 }\nlb = { ratio = 0.45359237 }\n\n[[quantity]]\nquantity = \"volume\"\n[quantity.units]\nunspecified = [{ names = [\"dash\", \"dashes\"], symbols = [\"ds\"], ratio = 0.000616115 }]\n",
+    )
+    .ok()?;
+    Converter::builder().with_units_file(cooklang::convert::UnitsFile::bundled()).ok()?.with_units_file(layer).ok()?.finish().ok()
+}
+
+/// ratios between units of one quantity agree with the quotient of their standard definitions (independent of the base)
+fn table_quotients(ctx: &mut Ctx, conv: &Converter) {
+    let all: Vec<&Unit> = conv.all_units().collect();
+    for a in &all {
+        for b in &all {
+            let (Some(da), Some(db)) = (units::def_by_symbol(a.symbol()), units::def_by_symbol(b.symbol())) else { continue };
+            if a.physical_quantity != b.physical_quantity || da.q != db.q {
+                continue;
+            }
+            ctx.evals += 1;
+            let case = Case::new("table", format!("{}/{}", a.symbol(), b.symbol()), 0, "layered");
+            if !close(a.ratio / b.ratio, da.factor / db.factor, 1e-6, 0.0) {
+                ctx.violation(&case, "table", "ratio_quotient_differs", format!("{} / {}: the converter's ratios give {} but the standard definitions give {}", a.symbol(), b.symbol(), a.ratio / b.ratio, da.factor / db.factor));
+            } else {
+                ctx.count("unit_ratio_quotients_compared_with_table");
+            }
+        }
+    }
+}
+
+fn layered(ctx: &mut Ctx) {
+    let Some(conv) = layered_converter() else {
+        ctx.harness_errors.push("the layered converter of C09 does not build".into());
+        return;
+    };
+    if ctx.shard == 0 {
+        table_quotients(ctx, &conv);
+    }
+    let all: Vec<Arc<Unit>> = conv.all_units().map(|u| conv.find_unit(u.symbol()).unwrap()).collect();
+    let mut k = 0u64;
+    for a in &all {
+        for b in &all {
+            k += 1;
+            // mass (re-based) and volume (new unit without a system) are the quantities the layer touches
+            let touched = |u: &Unit| matches!(u.physical_quantity, PhysicalQuantity::Mass | PhysicalQuantity::Volume);
+            if !ctx.mine(k) || !touched(a) || !touched(b) || units::def_by_symbol(a.symbol()).is_none() || units::def_by_symbol(b.symbol()).is_none() {
+                continue;
+            }
+            check_pair(ctx, &conv, a.symbol(), b.symbol(), a, b, &[3.5, 0.0, 180.0, 1e6]);
+            ctx.count("layered_pairs");
+        }
+    }
+    // fitting a unit that has no system: the default system (imperial here) decides the list
+    for v in [96.0, 400.0, 3.0, 1e4, 0.5] {
+        for range in [false, true] {
+            let val = if range { Value::Range { start: Number::Regular(v), end: Number::Regular(v * 2.0) } } else { Value::Number(Number::Regular(v)) };
+            let orig = Quantity::new(val, Some("ds".to_string()));
+            let case = Case::new("system", format!("{orig} fit (layered, default system imperial)"), 0, "layered");
+            ctx.evals += 1;
+            let mut q = orig.clone();
+            match crate::core::guarded(|| q.fit(&conv)) {
+                Err(p) => ctx.panic_violation(&case, "fit", p),
+                Ok(Err(e)) => ctx.violation(&case, "system", "conversion_of_known_unit_failed", format!("{orig} -> {e}")),
+                Ok(Ok(())) => {
+                    let allowed: Vec<String> = conv.best_units(PhysicalQuantity::Volume, Some(System::Imperial)).iter().map(|u| u.symbol().to_string()).collect();
+                    let got = q.unit().and_then(|u| conv.find_unit(u)).map(|u| u.symbol().to_string()).unwrap_or_default();
+                    let (ob, nb) = (base_amount(&conv, &orig), base_amount(&conv, &q));
+                    let same = match (ob, nb) {
+                        (Some((_, a, b)), Some((_, c, d))) => close(a, c, 1e-9, 1e-12) && close(b, d, 1e-9, 1e-12),
+                        _ => false,
+                    };
+                    if !allowed.contains(&got) {
+                        ctx.violation(&case, "system", "unit_not_in_designated_list", format!("{orig} -> {q}: {got} is not in the imperial list {allowed:?} although imperial is the default system and `ds` has none"));
+                    } else if !same {
+                        ctx.violation(&case, "system", "amount_not_preserved", format!("{orig} -> {q}"));
+                    } else {
+                        ctx.count("layered_fit_of_systemless_unit_ok");
+                    }
+                }
+            }
+        }
+    }
+}
+
 pub fn run(ctx: &mut Ctx) {
+    layered(ctx);
     let conv = Converter::bundled();
     if ctx.shard == 0 {
         table_agreement(ctx, &conv);
